@@ -3,7 +3,7 @@
 must stay silent (exit 0) on them.  Scratch worktrees are removed."""
 import glob, json, os, re, shutil, subprocess, sys, tempfile
 V = os.path.dirname(os.path.dirname(os.path.abspath(__file__)))
-ids = sys.argv[1:] or sorted(os.path.basename(p)[:-5] for p in glob.glob(os.path.join(V, 'benign', '*.json')) if 'RESULTS' not in p)
+ids = [a for a in sys.argv[1:] if not a.startswith('-')] or sorted(os.path.basename(p)[:-5] for p in glob.glob(os.path.join(V, 'benign', '*.json')) if 'RESULTS' not in p)
 props = [json.loads(l)['id'] for l in open(os.path.join(V, 'properties.jsonl'))]
 def sh(cmd, **kw): return subprocess.run(cmd, shell=True, capture_output=True, text=True, **kw)
 res = {}
@@ -25,4 +25,10 @@ for bid in ids:
         print(bid, 'alarms:', [p for p, r in row.items() if r != 0] or 'none')
     finally:
         sh('git -C /repo worktree remove --force %s' % d)
-json.dump(res, open(os.path.join(V, 'benign', 'RESULTS.json'), 'w'), indent=1, sort_keys=True)
+path = os.path.join(V, 'benign', 'RESULTS.json')
+try:
+    allres = json.load(open(path))
+except Exception:
+    allres = {}
+allres.update(res)       # results of earlier runs for other ids are kept
+json.dump(allres, open(path, 'w'), indent=1, sort_keys=True)
